@@ -52,10 +52,11 @@ def rebuild_queues(job: RebuildQueuesJob):
     if not queue_branches:
         raise exceptions.JobSuccess()
 
-    branch_factory(
-        repo,
-        'development/{}'.format(queue_branches[0].version)
-    ).checkout()
+    # Leave the q/* branches before deleting them. The first queue branch is
+    # not always a development queue (hotfix and stabilization queues have
+    # no 'development/<version>' counterpart): detach HEAD from one of them.
+    queue_branches[0].checkout()
+    repo.cmd('git checkout --detach')
 
     for branch in queue_branches:
         branch.remove(do_push=False)
